@@ -638,6 +638,14 @@ func (s *sharedIterator) clone() *sharedIterator {
 // to the shared items slice in the iterator state.
 // If an error occurs during the read operation, it updates the error in the iterator state.
 func (s *sharedIterator) fetchMore() {
+	// A clone may decide to fetch on a stale snapshot of the state and get here after another clone's
+	// fetch has already recorded the terminal error. Reading again would go past that error and replace
+	// it (typically with ErrIteratorDone), so that some clones never see it. fetchMore runs one at a
+	// time, so this check cannot race with another fetch.
+	if s.state.Load().err != nil {
+		return
+	}
+
 	var buf [bufferSize]*openfgav1.Tuple
 	read, e := s.ir.Read(context.Background(), buf[:])
 
